@@ -1,6 +1,7 @@
 CONSTANTS
  MaxReq = 3
  Parts = {"absent", "prefix", "garbage", "almost", "longer"}
+ Finals = {"absent", "stale"}
  Emit = FALSE
 SPECIFICATION Spec
 INVARIANT OkMeansValid
